@@ -301,6 +301,63 @@ CLAIMED = {
 
 NA = {}
 
+# contracts added after the first version of the table above (second seeding round); appended to the texts
+ADDED = {
+    "C01": ("Later additions: posted kwargs may be empty and a relay result may introduce new arguments; a decorated "
+            "handler's relative_priority is symbolic in add_handler; conditions of two handlers may share their text.",
+            ""),
+    "C02": ("Later additions: _async_handler_done (the wait of a coroutine handler is cleared when its task finished OR "
+            "was cancelled); C01's _run_handlers (relay / boolean dispatch) and add_handler (priority order) are "
+            "re-checked under this property.", ""),
+    "C04": ("Later additions: BallCountHandler._handle_missing_balls (every ball that leaves the count of an idle device "
+            "is reported lost exactly once: symbolic number of balls, loop invariant over a ghost counter); "
+            "EntranceSwitchCounter (_entrance_switch_handler, _entrance_switch_full_handler, _ball_left, "
+            "count_balls_sync: the counter's own count stays within 0..capacity whatever the spacing of activations); "
+            "the eject loop's readiness gate before EVERY attempt incl. retries (C05's _ejecting, re-checked here).",
+            "EntranceSwitchCounter.__init__, the switch counter and BallCountHandler._run remain outside."),
+    "C05": ("Later additions: _eject_ball (J1/J2), _handle_playfield_timeout_confirm (Q5), BallSave._schedule_balls, "
+            "find_available_ball_in_path and BallDevice.find_one_available_ball (bounded to 3 devices) are under "
+            "contract.", "The sentence of this note that lists _eject_ball / _handle_playfield_timeout_confirm / ball "
+            "save as assumed is superseded: they are verified."),
+    "C06": ("Later additions: _run_ball clears the end-of-ball flag only BEFORE the ball's start sequence (an end "
+            "request made while the ball starts is not lost); _end_ball removes the drain handler exactly once however "
+            "the ball ended.", ""),
+    "C07": ("Later additions: a rejected start leaves the priority unchanged; _setup_device_control_events (bounded: 2 "
+            "control events) registers delayed control events only through handlers whose delay lives in the mode's own "
+            "delay manager, DeviceManager._control_event_handler (D1); Timer.device_removed_from_mode / Timer.stop "
+            "(C13) re-checked here.", ""),
+    "C12": ("Later additions: Util.string_to_secs (a time string without a unit letter is seconds, also negative / "
+            "relative values) and ConfigValidator.check_for_invalid_sections (every unknown key is rejected wherever it "
+            "stands; bounded to sections of 2-3 keys).", "Regular expressions and any(c.isalpha() for c in s) are "
+            "decided with ASCII character classes (A-ASCII)."),
+    "C13": ("Later additions: Timer.start (no un-pause delay survives a start); C07's Mode.stop (the mode's delays are "
+            "cleared at once, before the stopping queue event) re-checked here.", ""),
+    "C14": ("Later additions: _bad_crc leaves the cached input state; FAST Neuron _process_sa (every report after "
+            "initialisation is stored and applied exactly once; bounded: 1 report byte, all 256 bit patterns) and "
+            "update_switches_from_hw_data (bounded: 2 switches).", ""),
+    "C16": ("Later additions: notifier side for the state machine device (state setter, device_loaded_in_mode, "
+            "device_removed_from_mode announce every change of the observable state); C01's _run_handlers (each "
+            "conditional handler's condition is evaluated for that handler, right before its turn) re-checked here.",
+            ""),
+    "C17": ("Later additions: a synchronised start lies exactly on the sync grid (3 intervals), stop() runs a pending "
+            "start callback whether or not a timer is pending, ShowPlayer.play leaves the configuration it is handed "
+            "untouched (bounded: 2 shows).", ""),
+    "C18": ("Later addition: Sequence.setup_event_handlers registers the handlers of later steps with a higher "
+            "priority (bounded: 3 steps).", ""),
+    "C19": ("Later additions: BcpInterface.process_bcp_message hands the decoded parameters on unchanged (bounded: one "
+            "command); helper functions behind functools.lru_cache are executed with a key-confusion model (1 == 1.0 "
+            "== True share an entry).", ""),
+    "C20": ("Later addition: the game side of a denied player_add_request (C06's P1-P3) is re-checked here.", ""),
+    "C03": ("Later addition: _process_active_timed_switches (hold-time handlers: H1/H2, bounded 1..3 deadlines).", ""),
+    "C08": ("Later additions: PlatformController._get_configured_driver_no_hold / _with_hold keep rule settings within "
+            "the driver's limits; DriverLight.set_brightness passes the brightness on.", ""),
+    "C09": ("Later additions: _schedule_update (channel shares), done callbacks of a cancelled fade task, "
+            "remove_from_stack_by_key K1/K2.", "The earlier remark that _schedule_update is assumed is superseded."),
+    "C10": ("Later additions: PlatformController set_*_rule / clear_hw_rule (PC1-PC3), VirtualHardwarePlatform rule "
+            "store (V1/V2), SoftwareEosRepulseManager (SE1/SE2).", "The earlier remark that the platform controller "
+            "is assumed is superseded."),
+}
+
 
 def main():
     props = [json.loads(l) for l in open("properties.jsonl")]
@@ -308,7 +365,11 @@ def main():
     for p in props:
         pid = p["id"]
         if pid in CLAIMED:
-            c = CLAIMED[pid]
+            c = dict(CLAIMED[pid])
+            if pid in ADDED:
+                c["text"] = c["text"] + " " + ADDED[pid][0]
+                if ADDED[pid][1]:
+                    c["note"] = c["note"] + " " + ADDED[pid][1]
             checks.append({
                 "property_id": pid,
                 "quick_cmd": "./check %s --tier quick" % pid,
